@@ -645,6 +645,17 @@ class Engine
                     "(x_done after GetVersion=%" PRIu64 ", x_begun before check=%" PRIu64 ")",
                     b.index, t_mon.tid, api, w.d1 + 1, ver_before, w.d1, w.b2));
       }
+      // An owning guard returned by TryLock* excludes exclusive holders from its grant until b3 was read (the caller
+      // still holds it), and every exclusive holder counts itself in x_begun before it releases: an exclusive section
+      // counted in b3 but not finished at d1 was therefore committed between obtaining the version and the grant, also
+      // when it began only after the call had sampled the lock word (commit between the admission load and the RMW).
+      if (!g_cfg.arbitrary_versions && !overlapped && strncmp(api, "TryLock", 7) == 0 && w.b3 > w.d1) {
+        Violate(vprop, Fmt("opt:%s-succeeded-across-exclusive-section:committed-during-the-call", api),
+                Fmt("lock=%d thread=%d %s returned an owning guard with version %u although exclusive section #%" PRIu64
+                    " was committed after the version was obtained and before the grant "
+                    "(x_done after GetVersion=%" PRIu64 ", x_begun before the call=%" PRIu64 ", x_begun under the grant=%" PRIu64 ")",
+                    b.index, t_mon.tid, api, ver_before, w.d1 + 1, w.d1, w.b2, w.b3));
+      }
       if (!g_cfg.arbitrary_versions && !w.consistent) {
         Violate(vprop, Fmt("opt:%s-validated-inconsistent-snapshot", api),
                 Fmt("lock=%d thread=%d %s succeeded but the payload read in between was "
